@@ -216,6 +216,16 @@ def _warm(P, op, ctx, step, observed, warm):
     try:
         B.mab.warm_start({a: list(v) for a, v in feats.items()}, q2)
         _, warm_b = _status(B.mab)
+        # the copy's call has its OWN quantile: its newly warm arms must respect the threshold at q2 (a threshold
+        # remembered from the primary's call with the same features would show here)
+        thr2 = _threshold(feats, q2)
+        for a in warm_b - warm0:
+            ds = [_cos(feats[a], feats[t]) for t in arms if t in trained0]
+            ctx.fired("oracle.comparisons")
+            if ds and (thr2 is None or min(ds) > thr2 + 1e-12):
+                ctx.violate("warm-beyond-threshold", step, {"arm": a, "distance": min(ds), "threshold": thr2, "q": q2,
+                                                            "call": "second call on a copy with another quantile"})
+                return False
         lo, hi = (warm_b, warm1) if q2 <= q else (warm1, warm_b)
         ctx.fired("oracle.comparisons")
         if not lo <= hi:
